@@ -8,8 +8,9 @@ if nothing uncovered is near, the path ENDS and the next path starts with the sh
 the initial state (BFS tree, computed once) to the open state nearest to it.  Cost: O(edges) plus
 O(depth) per path.  Same signature / result as vlib.cover_paths:
     paths, covered, total = cover_paths(g, rng, max_paths=None, full=True, max_len=400, want_terminal=True)
-Self loops are not walked (as in vlib.cover_paths): a specification whose calls can leave the state
-unchanged needs a ghost that makes such a call a transition.
+Unlike vlib.cover_paths SELF LOOPS ARE WALKED (and counted in `total`): in a specification whose
+actions carry the result of a call in their label, a call that leaves the state unchanged
+(`Cancel(1,"exc",0)`: cancel returned false) is a self loop and must be replayed like any other.
 
 Use:  with fastcover.installed(): graph_replay(...)
 """
@@ -20,7 +21,8 @@ import vlib
 
 
 def cover_paths(g, rng, max_paths=None, full=True, max_len=400, want_terminal=True, look_around=30):
-    out = {n: [(l, d) for (l, d) in es if d != n] for n, es in g.edges.items()}
+    out = {n: list(es) for n, es in g.edges.items()}          # self loops included
+    terminal = {n for n, es in out.items() if all(d == n for (l, d) in es)}
     total = sum(len(v) for v in out.values())
     unc = {n: set(range(len(v))) for n, v in out.items()}
     order = {}
@@ -62,7 +64,7 @@ def cover_paths(g, rng, max_paths=None, full=True, max_len=400, want_terminal=Tr
         for n, es in out.items():
             for (l, d) in es:
                 rev.setdefault(d, []).append(n)
-        dq = deque(n for n in out if not out[n])
+        dq = deque(terminal)
         for n in dq:
             dist_term[n] = 0
         while dq:
@@ -141,7 +143,7 @@ def cover_paths(g, rng, max_paths=None, full=True, max_len=400, want_terminal=Tr
             for (pn, j) in hop:
                 cur = take(pn, j, steps)
         if want_terminal:
-            while out[cur] and cur in dist_term and len(steps) < max_len + 200:
+            while cur not in terminal and cur in dist_term and len(steps) < max_len + 200:
                 best = min(range(len(out[cur])), key=lambda k: dist_term.get(out[cur][k][1], 1 << 30))
                 cur = take(cur, best, steps)
         paths.append((init, steps))
